@@ -159,7 +159,7 @@ func c12(r *mon.Run) {
 		pvList[k] = map[string]interface{}{"n": float64(k % 7), "i": float64(k)}
 	}
 	pvTrees := []*gen.Expr{gen.Func("length", gen.Current()), gen.Chain(nil, gen.StIndex(-1), gen.StField("i")), gen.Func("sum", gen.Chain(nil, gen.StListStar(), gen.StField("i"))),
-		gen.Chain(nil, gen.StFilter(gen.Cmp(">", gen.Field("n"), gen.LitJSON("5"))), gen.StField("i")), gen.Func("max_by", gen.Current(), gen.ExpRef(gen.Field("i"))), gen.Chain(nil, gen.StSliceS("-3", "", ""), gen.StField("i")),
+		gen.Chain(nil, gen.StFilter(gen.Cmp(">", gen.Field("n"), gen.LitJSON("5"))), gen.StField("i")), gen.Func("max_by", gen.Current(), gen.ExpRef(gen.Field("i"))), gen.Chain(nil, gen.StSliceS("-3", "", ""), gen.StField("i")), gen.Chain(nil, gen.StSliceS("", "-2", ""), gen.StIndex(-1), gen.StField("i")), gen.Chain(nil, gen.StSliceS("", "", "-1"), gen.StIndex(0), gen.StField("i")), gen.Func("length", gen.Chain(nil, gen.StSliceS("1", "", "2"))), gen.Chain(nil, gen.StIndex(-2), gen.StField("i")),
 		// whole-list functions over hundreds of elements (anything a function farms out must stay per call)
 		gen.Func("map", gen.ExpRef(gen.Field("i")), gen.Current()), gen.Func("sum", gen.Func("map", gen.ExpRef(gen.Field("n")), gen.Current())), gen.Chain(gen.Func("sort_by", gen.Current(), gen.ExpRef(gen.Field("n"))), gen.StListStar(), gen.StField("i")),
 		gen.Func("map", gen.ExpRef(gen.Func("map", gen.ExpRef(gen.Current()), gen.MultiList(gen.Field("i"), gen.Field("n")))), gen.Current()), gen.Func("length", gen.Func("map", gen.ExpRef(gen.Func("to_string", gen.Field("i"))), gen.Current())),
@@ -239,6 +239,14 @@ func c12(r *mon.Run) {
 			}
 			var pviews []interface{} // mode 9: documents that start at the same address and differ in length only
 			var pres []ref.Result
+			pvBad := make([]string, N)
+			pvCalls := 48
+			if N > 4 {
+				pvCalls = 16
+			}
+			if r.Tier == "thorough" {
+				pvCalls *= 4
+			}
 			if mode == 9 {
 				tree = pvTrees[(i/len(c12Modes))%len(pvTrees)]
 				expr = gen.Spell(tree)
@@ -377,7 +385,17 @@ func c12(r *mon.Run) {
 							}
 						}
 					case 9:
+						// every goroutine walks over all the views (lists of different lengths that share their first elements),
+						// starting from its own, many times: whatever the compiled expression remembers per node about "the"
+						// list is asked for by callers with lists of other lengths a few nanoseconds apart
 						s.o = apiJP(jp, pviews[k])
+						for j := 1; j < pvCalls && pvBad[k] == ""; j++ {
+							v := (k + j) % N
+							o := apiJP(jp, pviews[v])
+							if o.Panicked || (pres[v].Skipped == "" && !pres[v].DontCare && !matches(pres[v], o)) {
+								pvBad[k] = fmt.Sprintf("goroutine %d of %d, call %d, the first %d elements: %s (made alone: %s)", k, N, j, len(pviews[v].([]interface{})), clipStr(o.String(), 300), clipStr(expectedString(pres[v]), 300))
+							}
+						}
 					case 8:
 						const calls = 12
 						wcalls[k] = make([]mon.Observed, calls)
@@ -448,6 +466,11 @@ func c12(r *mon.Run) {
 						return
 					}
 				case 9:
+					if pvBad[k] != "" {
+						r.Violate(&mon.Violation{Workload: "rounds", Index: i, API: c12Modes[mode], Expr: expr, DocDesc: fmt.Sprintf("prefix views of one list of %d elements, every goroutine over all of them", len(pvList)),
+							Expected: "what the same call returns when made alone", Observed: pvBad[k], Class: "concurrent calls on prefix views of one list: result differs"})
+						return
+					}
 					if pres[k].Skipped == "" && !pres[k].DontCare && !matches(pres[k], s.o) {
 						r.Violate(&mon.Violation{Workload: "rounds", Index: i, API: c12Modes[mode], Expr: expr, DocDesc: fmt.Sprintf("the first %d of %d elements of one list", len(pviews[k].([]interface{})), len(pvList)),
 							Expected: "what the same call returns when made alone: " + clipStr(expectedString(pres[k]), 400), Observed: fmt.Sprintf("goroutine %d of %d: %s", k, N, clipStr(s.o.String(), 400)), Class: "concurrent calls on prefix views of one list: result differs"})
